@@ -1016,12 +1016,14 @@ def twin_far(rng, far):
     b = copy.deepcopy(far)
     which = rng.choice([0, 1])          # zenith or azimuth triple
     pos = rng.choice([0, 1])            # initial or increment
-    how = rng.choice(['minus12', 'minus12', 'plus_small', 'sign', 'int_float'])
+    how = rng.choice(['minus12', 'minus12', 'plus_small', 'plus_small', 'sign', 'int_float'])
     if how == 'minus12':
         a[which][pos] = -1
         b[which][pos] = -2
     elif how == 'plus_small':
-        b[which][pos] = a[which][pos] + rng.choice([1, 0.5, 1e-3])
+        # down to differences far below any sensible tolerance: a request
+        # that is 'the same within tolerance' is still another request
+        b[which][pos] = a[which][pos] + rng.choice([1, 0.5, 1e-3, 1e-5, 1e-7, 1e-9, 1e-12])
     elif how == 'sign':
         b[which][pos] = -a[which][pos] if a[which][pos] else 5
     else:
@@ -1206,7 +1208,9 @@ def gen_api_task(rng, maxops=24, env=None, kinds=None, model=None, pool=None):
         import copy
         tw = copy.deepcopy(nears[0])
         k = rng.randrange(3)
-        tw[rng.choice([0, 1])][k] += rng.choice([1.0, 0.5, 1e-3])
+        v = tw[rng.choice([0, 1])]
+        d = rng.choice([1.0, 0.5, 1e-3, 1e-3, 1e-5, 1e-7, 1e-9, 1e-12])
+        v[k] = v[k] + d if d >= 1e-3 else v[k] * (1 + d)
         nears = [nears[0], tw]
     ops = gen_api_ops(rng, len(pool), len(fars), len(nears), maxops)
     return dict(kind='api', builder='cli', argv=m.argv(), pool=pool, fars=fars,
@@ -1487,7 +1491,12 @@ def env_side(rng, perturbed, side):
             ('SOURCE_DATE_EPOCH', str(rng.randrange(10 ** 9, 2 * 10 ** 9))), ('MININEC_DEBUG', '1'),
             ('MPLBACKEND', 'Agg'), ('DISPLAY', ':0')) if rng.random() < 0.5},
         # when the cyclic garbage collector runs is not the program's business
-        gc=rng.choice([None, 'disabled', 'eager', 'between_ops']))
+        gc=rng.choice([None, 'disabled', 'eager', 'between_ops']),
+        # ... nor is what standard input is connected to
+        stdin=rng.choice([None, 'null', 'data', 'data', 'idle', 'eof', 'file']),
+        # ... nor how the caller collects the output (one stream for the life
+        # of the process, or a new stream object per invocation)
+        capture=rng.choice(['tap', 'tap', 'redirect']) if side == 'hist' else 'tap')
 
 
 def gen_plan(run_seed, tier='quick', env=None, kinds=None, shape=None):
@@ -1629,6 +1638,7 @@ def floor_plans(base_seed, tier='quick'):
     plans += mid_floor_plans(base_seed, tier)
     plans += tolerance_floor_plans(base_seed, tier)
     plans += regime_floor_plans(base_seed, tier)
+    plans += twin_floor_plans(base_seed, tier)
     return plans
 
 
@@ -2145,7 +2155,8 @@ def round_floor_plans(base_seed, tier='quick'):
                               npulses=m.min_pulses() + 2 * len(m.geo), pool=[n + 0.5, float(n)]))
             sched += [1] * len(cops)
         plans.append(dict(version=1, run_seed=seed, tier=tier, floor=True, config='plain',
-                          hist=env_side(rng, False, 'hist'), orac=env_side(rng, False, 'orac'),
+                          hist=dict(env_side(rng, False, 'hist'), capture='redirect' if i % 4 == 0 else 'tap'),
+                          orac=env_side(rng, False, 'orac'),
                           disk={}, tasks=tasks, schedule=sched))
     return plans
 
@@ -2316,4 +2327,46 @@ def regime_floor_plans(base_seed, tier='quick'):
         plans.append(dict(version=1, run_seed=seed, tier=tier, floor=True, config='plain',
                           hist=env_side(rng, False, 'hist'), orac=env_side(rng, False, 'orac'),
                           disk={}, tasks=[t, c], schedule=[0] * len(ops) + [1] * len(cops)))
+    return plans
+
+
+# ----------------------------------------------------------------- twin floor
+
+def twin_floor_plans(base_seed, tier='quick'):
+    """Field requests that differ from the previous one by 1e-3 .. 1e-12
+    (relative) in one number, back to back on one object without a compute
+    in between: 'unchanged within tolerance' short-cuts and keys that are
+    rounded, truncated or hashed too coarsely only show between such twins."""
+    import copy
+    plans = []
+    i = 0
+    for d in (1e-3, 1e-5, 1e-7, 1e-9, 1e-12):
+        for env in ('free', 'ideal', 'real2'):
+            seed = base_seed * 1000003 + 999000 + i
+            i += 1
+            rng = random.Random(seed)
+            m = gen_model(rng, env=env, kinds=rng.choice([[], ['impedance']]))
+            pool, probes = gen_pool(rng, m, k=2)
+            n0 = gen_near(rng, m)
+            n1 = copy.deepcopy(n0)
+            k = rng.randrange(3)
+            w = rng.choice([0, 1])
+            n1[w][k] = n1[w][k] * (1 + d)
+            f0 = gen_far(rng)
+            f0[0][0] = f0[0][0] or 10
+            f0[1][1] = f0[1][1] or 30
+            f1 = copy.deepcopy(f0)
+            w = rng.choice([(0, 0), (0, 1), (1, 0), (1, 1)])
+            f1[w[0]][w[1]] = (f1[w[0]][w[1]] or 10) * (1 + d)
+            ops = [['COMPUTE'], ['NEAR', 0], ['OBS_NUM'], ['NEAR', 1], ['OBS_NUM'], ['OBS_REPORT', ['near-field']],
+                   ['NEAR', 0], ['OBS_NUM'], ['FAR', 0], ['OBS_NUM'], ['FAR', 1], ['OBS_NUM'],
+                   ['OBS_REPORT', ['far-field']], ['FAR', 0], ['OBS_NUM'], ['SET_F', 1], ['COMPUTE'],
+                   ['NEAR', 1], ['FAR', 1], ['OBS_NUM'], ['NEAR', 0], ['FAR', 0], ['OBS_NUM']]
+            t = dict(kind='api', builder='cli', argv=m.argv(), pool=pool[:2], fars=[f0, f1], nears=[n0, n1],
+                     ops=ops, template=m.template, env=m.env,
+                     features=sorted(set(m.features + ['twin_floor'])), probes=probes,
+                     npulses=m.min_pulses() + 2 * len(m.geo))
+            plans.append(dict(version=1, run_seed=seed, tier=tier, floor=True, config='plain',
+                              hist=env_side(rng, False, 'hist'), orac=env_side(rng, False, 'orac'),
+                              disk={}, tasks=[t], schedule=[0] * len(ops)))
     return plans
